@@ -208,23 +208,29 @@ Fixpoint part_records (fuel : nat) (multi length lengthn : Z) (arr : list Z) : l
 Definition part_buf (parts : list (Z * list Z)) (j : Z) : list Z :=
   flat_map (fun pr => if fst pr =? j then snd pr else []) parts.
 
-Definition set_slot (bufs : list (list Z)) (j : Z) (v : list Z) : list (list Z) :=
-  map (fun ib => if Z.of_nat (fst ib) =? j then v else snd ib) (zip (seq 0 (length bufs)) bufs).
-
-(* pairwise merge tree over the slots: for (power = 1; power < count; power *= 2) for (i = 0; i + power < count; i += 2 power) *)
-Fixpoint merge_pass (fuel : nat) (npay : Z) (power i count : nat) (bufs : list (list Z)) : list (list Z) :=
-  match fuel with
-  | O => bufs
-  | S f =>
-    if (i + power <? count)%nat then
-      merge_pass f npay power (i + 2 * power)%nat count
-                 (set_slot bufs (Z.of_nat i) (notify_merge npay (nth i bufs []) (nth (i + power) bufs [])))
-    else bufs
+Fixpoint set_nth {A} (l : list A) (j : nat) (v : A) : list A :=
+  match l, j with
+  | [], _ => []
+  | _ :: r, O => v :: r
+  | x :: r, S j' => x :: set_nth r j' v
   end.
-Fixpoint merge_tree (fuel : nat) (npay : Z) (power count : nat) (bufs : list (list Z)) : list (list Z) :=
+Definition set_slot (bufs : list (list Z)) (j : Z) (v : list Z) : list (list Z) :=
+  if j <? 0 then bufs else set_nth bufs (Z.to_nat j) v.
+
+(* pairwise merge tree over the receive slots:
+     for (power = 1; power < count; power *= 2) for (i = 0; i + power < count; i += 2 * power) merge slot i + power into slot i.
+   After the pass with `power` only the slots at multiples of 2 * power are still alive; one pass merges the alive
+   slots pairwise from the left and carries an unpaired last slot over - the same bracketing, written on the list
+   of alive slots. *)
+Fixpoint pairup (npay : Z) (l : list (list Z)) : list (list Z) :=
+  match l with
+  | x :: y :: r => notify_merge npay x y :: pairup npay r
+  | _ => l
+  end.
+Fixpoint merge_tree (fuel : nat) (npay : Z) (l : list (list Z)) : list (list Z) :=
   match fuel with
-  | O => bufs
-  | S f => if (power <? count)%nat then merge_tree f npay (2 * power)%nat count (merge_pass count npay power 0 count bufs) else bufs
+  | O => l
+  | S f => match l with _ :: _ :: _ => merge_tree f npay (pairup npay l) | _ => l end
   end.
 
 Definition nary_level (P me npay level depth ntop nint nbot start length : Z) (arr : list Z) (k : list Z -> prog) : prog :=
@@ -240,7 +246,7 @@ Definition nary_level (P me npay level depth ntop nint nbot start length : Z) (a
     (recv_any_n (Z.to_nat nrecv) tag [] (fun got =>
        let bufs0 := set_slot (repeat [] (Z.to_nat (nrecv + 1))) mypart (part_buf parts mypart) in
        let bufs := fold_left (fun b sd => set_slot b (nary_slot (fst sd) me mypart lengthn start length divn) (snd sd)) got bufs0 in
-       k (nth 0 (merge_tree 32 npay 1 (Z.to_nat (nrecv + 1)) bufs) []))).
+       k (nth 0 (merge_tree 32 npay bufs) []))).
 
 (* the descent of the recursion: (level, start, length) from the top; communication happens on the way back *)
 Fixpoint nary_descent (fuel : nat) (me level depth ntop nint nbot start length : Z) : list (Z * Z * Z) :=
